@@ -137,3 +137,59 @@ def large_content(c, tamper, hi):
     out = c.call(_crypto.content_decrypt, alg, params, cek, bad)
     c.check(seq_eq(out, pt) if tamper == "none" else False, "an altered blob decrypted to different plaintext" if tamper != "none" else "long content: whole message decrypts to the original")
     return True
+
+
+@harness(P, per_job=True, params=lambda tier: [dict(group=g, layout=l) for g, l in ([("own", "envelope"), ("root", "envelope")] if tier == "quick" else
+                                                                                 [("own", "envelope"), ("own", "trailing"), ("root", "envelope"), ("root", "trailing")])],
+         raises=(Exception,), max_steps=4000000,
+         bounds="multi-site mutation into PUBLIC-KEY mode by a party that holds no secret, against a holder of a DH root key: the key identifier's public-key flag is set and key_info "
+         "replaced by a well-formed FFC DH public key that is either entirely the forger's (key_length 4: symbolic 32-bit modulus, generator and public value) or in the root key's "
+         "own group (RFC 5114 2048-bit p and g; public value and committed secret symbolic within 0..8 and p-4..p+4, i.e. the degenerate elements, ordinary elements and values >= p); the wrapped CEK is an ideal key wrap under the KEK that follows from a shared secret the forger "
+         "commits to (a symbolic value), nonce + content are the forger's. Modular exponentiation obeys its exponent-independent laws (modulus 1; base 0, 1, p-1), and an element "
+         "with an unknown exponent cannot be guessed in the root key's group but can in a group the forger chose. Decryption must fail.",
+         outside="elements of small order > 2 in the root key's group (small-subgroup confinement needs the subgroup order q, which MS-GKDI DH parameters do not carry); ECDH forgeries",
+         must_reach=("public-key forgery built",))
+def rekeyed_public_key(c, group, layout):
+    import dataclasses
+
+    import dpapi_ng
+    from cryptography.hazmat.primitives import hashes
+    from dpapi_ng import _blob, _gkdi
+
+    from symex import values as V
+
+    from . import e2e, refs
+
+    w, pt, root, blob = blobmut.make_blob(c, layout="envelope")  # the victim's valid blob (nonce mode, made with a root-key cache)
+    y = c.call(_blob.DPAPINGBlob.unpack, blob)
+    holder = dpapi_ng.KeyCache()
+    holder.load_key(b"", e2e.RK)
+    prm = _gkdi.FFCDHParameters.unpack(holder._root_keys[e2e.RK].secret_parameters)  # the root key's DH group (library default: RFC 5114 2.3)
+    if group == "own":
+        kl = 4
+        p, g, pub = c.int("forged_p", 0, (1 << 32) - 1), c.int("forged_g", 0, (1 << 32) - 1), c.int("forged_y", 0, (1 << 32) - 1)
+    else:
+        kl, p, g = prm.key_length, prm.field_order, prm.generator
+        # public value and committed shared secret near the two ends of the group: 0..8 and p-4..p+4 (degenerate and ordinary elements, values >= p)
+        pub = [0, p - 4][c.concretize(c.int("forged_y_anchor", 0, 1))] + c.int("forged_y_delta", 0, 8)
+    key_info = refs.ref_ffcdh_key(kl, p, g, pub)
+    if group == "own":
+        guess = c.int("forged_shared_secret", 0, (1 << (8 * kl)) - 1)
+    else:
+        guess = [0, p - 4][c.concretize(c.int("forged_guess_anchor", 0, 1))] + c.int("forged_guess_delta", 0, 8)
+    w.algebra.declare_guess(guess, prm.field_order)
+    label, ctx = "KDS service\0".encode("utf-16-le"), "KDS public key\0".encode("utf-16-le")
+    gb = guess.to_bytes(kl, "big")
+    secret = w.kdf_concat(hashes.SHA256(), gb, "SHA512\0".encode("utf-16-le"), ctx, label, 32)
+    kek = w.kdf(hashes.SHA512(), secret, label, ctx, 32)
+    cek, evil, nonce = c.bytes("forged_cek", 32), c.bytes("evil", blobmut.PT_LEN), c.bytes("forged_nonce", 12)
+    enc_cek = w.aes_key_wrap(kek, cek)
+    content = w.aesgcm_class()(cek).encrypt(nonce, evil, None)
+    kid = dataclasses.replace(y.key_identifier, flags=y.key_identifier.flags | 1, key_info=key_info)
+    forged = _blob.DPAPINGBlob(kid, y.protection_descriptor, enc_cek, y.enc_cek_algorithm, None, content, y.enc_content_algorithm, refs.ref_gcm_parameters(nonce))
+    bad = c.call(forged.pack, blob_in_envelope=(layout == "envelope"))
+    c.reach("public-key forgery built")
+    victim = e2e.loaded_cache(c, root, "SHA512", secret_algorithm="DH", secret_parameters=prm.pack(), private_key_length=512, public_key_length=2048)
+    out = c.call(dpapi_ng.ncrypt_unprotect_secret, bad, cache=victim)
+    c.check(seq_eq(out, pt), "an altered blob decrypted to different plaintext")
+    return True
